@@ -198,7 +198,9 @@ func msApply(ctx context.Context, st Store, op msOp) msRes {
 		}
 		return msRes{Kind: "fetched", N: v, Meta: m}
 	case "lo":
-		lk, ok := st.(ConsumerOffsetLookup)
+		lk, ok := st.(interface {
+			LookupConsumerOffset(ctx context.Context, group, topic string, partition int32) (int64, string, bool, error)
+		})
 		if !ok { // unpatched tree: the method does not exist; report what Fetch says, found unknown
 			v, m, _ := st.FetchConsumerOffset(ctx, op.Group, op.Topic, op.Part)
 			return msRes{Kind: "looked", N: v, Meta: m, Found: v != 0 || m != ""}
